@@ -613,6 +613,173 @@ func init() {
 		}
 		def("influxParseFieldFloatBranchSrc", floatBranch)
 
+		// --- round 12: the line parser as far as it touches the RowBuilder, and the request loop of influx.Parse
+		pl := FindFunc(ip, "", "parseInfluxLineWithEnriched")
+		if pl == nil {
+			return "", fmt.Errorf("parseInfluxLineWithEnriched not found")
+		}
+		var plCalls []string
+		for _, c := range CallSeq(pl) {
+			switch c {
+			case "builder.AddNameSpace", "scanMetricName", "builder.AddMetricName", "scanTagLine", "parseTags", "builder.AddTag",
+				"scanFieldLine", "parseFields", "builder.AddSimpleField", "parseTimestamp", "builder.AddTimestamp", "builder.Reset":
+				plCalls = append(plCalls, c)
+			}
+		}
+		sb.WriteString("/-- parseInfluxLineWithEnriched: scanning steps and RowBuilder calls in source order -/\ndef influxParseLineCalls : List String := " + LeanStrList(plCalls) + "\n\n")
+		sb.WriteString("/-- parseInfluxLineWithEnriched: (guard, returned value) of every early return, in source order -/\ndef influxParseLineRules : List (String × String) := " + leanPairs(c16Rules(fsetI, pl)) + "\n\n")
+		fsetP, ipf, err := ParseFile(repo, "ingestion/influx/influx.go")
+		if err != nil {
+			return "", err
+		}
+		pf := FindFunc(ipf, "", "Parse")
+		if pf == nil {
+			return "", fmt.Errorf("influx.Parse not found")
+		}
+		var loop *ast.ForStmt
+		ast.Inspect(pf.Body, func(n ast.Node) bool {
+			if fs, ok := n.(*ast.ForStmt); ok && loop == nil && fs.Cond != nil && strings.Contains(c16Src(fsetP, fs.Cond), "HasNext") {
+				loop = fs
+			}
+			return true
+		})
+		if loop == nil {
+			return "", fmt.Errorf("influx.Parse: the loop over the lines was not found")
+		}
+		// Where does rowBuilder.Reset() stand? At the top = a top-level statement of the loop body before any
+		// statement that can `continue` or calls the line parser. Anywhere else (or behind a condition): not at
+		// the top. No Reset in the loop at all: extraction failure.
+		resetAtTop, resetSeen, blocked := false, false, false
+		var loopStmts []string
+		for _, st := range loop.Body.List {
+			txt := c16Src(fsetP, st)
+			isReset := false
+			if es, ok := st.(*ast.ExprStmt); ok {
+				if ce, ok := es.X.(*ast.CallExpr); ok && exprName(ce.Fun) == "rowBuilder.Reset" {
+					isReset = true
+				}
+			}
+			switch {
+			case isReset:
+				loopStmts = append(loopStmts, "rowBuilder.Reset()")
+				if !blocked {
+					resetAtTop = true
+				}
+				resetSeen = true
+			case strings.Contains(txt, "continue") || strings.Contains(txt, "parseInfluxLine") || strings.Contains(txt, "rowBuilder.") || strings.Contains(txt, "return"):
+				blocked = true
+				switch {
+				case strings.Contains(txt, "parseInfluxLine"):
+					loopStmts = append(loopStmts, "parse-line-or-continue")
+				case strings.Contains(txt, "rowBuilder.AddTag"):
+					loopStmts = append(loopStmts, "enriched-tags-or-fail")
+				case strings.Contains(txt, "rowBuilder.Build"):
+					loopStmts = append(loopStmts, "append-built-row-or-continue")
+				case strings.Contains(txt, "HasPrefix"):
+					loopStmts = append(loopStmts, "comment-continue")
+				case strings.Contains(txt, "rowBuilder.Reset"):
+					loopStmts = append(loopStmts, "conditional-reset")
+					resetSeen = true
+				}
+			}
+		}
+		if !resetSeen {
+			found := false
+			ast.Inspect(loop.Body, func(n ast.Node) bool {
+				if ce, ok := n.(*ast.CallExpr); ok && exprName(ce.Fun) == "rowBuilder.Reset" {
+					found = true
+				}
+				return true
+			})
+			if !found {
+				return "", fmt.Errorf("influx.Parse: no rowBuilder.Reset() in the loop over the lines")
+			}
+		}
+		// getPrecisionMultiplier: the switch as a table (precision, multiplier); "default" last
+		gp := FindFunc(ipf, "", "getPrecisionMultiplier")
+		if gp == nil {
+			return "", fmt.Errorf("getPrecisionMultiplier not found")
+		}
+		var evalC func(e ast.Expr) (int64, bool)
+		evalC = func(e ast.Expr) (int64, bool) {
+			switch x := e.(type) {
+			case *ast.BasicLit:
+				f, err := strconv.ParseFloat(x.Value, 64)
+				if err != nil || f != float64(int64(f)) {
+					return 0, false
+				}
+				return int64(f), true
+			case *ast.ParenExpr:
+				return evalC(x.X)
+			case *ast.UnaryExpr:
+				v, ok := evalC(x.X)
+				if x.Op == token.SUB {
+					return -v, ok
+				}
+				return v, ok && x.Op == token.ADD
+			case *ast.BinaryExpr:
+				a, ok1 := evalC(x.X)
+				b, ok2 := evalC(x.Y)
+				if x.Op == token.MUL {
+					return a * b, ok1 && ok2
+				}
+			}
+			return 0, false
+		}
+		var precRows []string
+		var precErr error
+		ast.Inspect(gp.Body, func(n ast.Node) bool {
+			cc, ok := n.(*ast.CaseClause)
+			if !ok {
+				return true
+			}
+			if len(cc.Body) != 1 {
+				precErr = fmt.Errorf("getPrecisionMultiplier: a case with %d statements", len(cc.Body))
+				return false
+			}
+			rs, ok := cc.Body[0].(*ast.ReturnStmt)
+			if !ok || len(rs.Results) != 1 {
+				precErr = fmt.Errorf("getPrecisionMultiplier: a case that does not return one value")
+				return false
+			}
+			v, ok := evalC(rs.Results[0])
+			if !ok {
+				precErr = fmt.Errorf("getPrecisionMultiplier: cannot evaluate %s", c16Src(fsetP, rs.Results[0]))
+				return false
+			}
+			if cc.List == nil {
+				precRows = append(precRows, fmt.Sprintf("(\"default\", %s)", LeanInt(v)))
+			}
+			for _, l := range cc.List {
+				bl, ok := l.(*ast.BasicLit)
+				if !ok || bl.Kind != token.STRING {
+					precErr = fmt.Errorf("getPrecisionMultiplier: case label %s", c16Src(fsetP, l))
+					return false
+				}
+				precRows = append(precRows, fmt.Sprintf("(%s, %s)", bl.Value, LeanInt(v)))
+			}
+			return false
+		})
+		if precErr != nil {
+			return "", precErr
+		}
+		sb.WriteString("/-- getPrecisionMultiplier: (lower-cased precision, multiplier); > 0: ms = literal * m, < 0: ms = -1 * literal / m, 0: guessed -/\ndef influxPrecisionTable : List (String × Int) := [" + strings.Join(precRows, ", ") + "]\n\n")
+		var swTag string
+		ast.Inspect(gp.Body, func(n ast.Node) bool {
+			if sw, ok := n.(*ast.SwitchStmt); ok && swTag == "" && sw.Tag != nil {
+				swTag = c16Src(fsetP, sw.Tag)
+			}
+			return true
+		})
+		def("influxPrecisionSwitchTag", swTag)
+		s, err = c16BodySrc(fsetI, FindFunc(ip, "", "parseTimestamp"))
+		if err != nil {
+			return "", fmt.Errorf("parseTimestamp: %w", err)
+		}
+		def("influxParseTimestampSrc", s)
+		fmt.Fprintf(&sb, "/-- influx.Parse: `rowBuilder.Reset()` is a statement of the loop body that runs before anything that can `continue`, fail or touch the builder -/\ndef influxResetAtLoopTop : Bool := %v\n\n", resetAtTop)
+		sb.WriteString("/-- influx.Parse: the statements of the loop body that touch the builder or leave the iteration, in source order -/\ndef influxParseLoopSteps : List String := " + LeanStrList(loopStmts) + "\n\n")
+
 		// --- the flat path, branch for branch: rebuild (full body + its rejection rules) and lindb/common's RowBuilder
 		s, err = c16BodySrc(fsetF, FindFunc(fdc, "BrokerRowFlatDecoder", "rebuild"))
 		if err != nil {
